@@ -144,13 +144,22 @@ def check_parser_result(parser, args, res, clause_prefix=''):
 
 
 def monitor_parser(case, obs):
+    """total, deterministic, documented shape — and a FUNCTION of the argument list: equal
+    arguments give equal results whatever was done to earlier results in between."""
     out = []
     parser, args = case['parser'], case['args']
-    if not pv.pv_equal(obs['res'], obs['again']):
-        out.append(fail('parser-deterministic', f'{parser}({args!r}) gave {obs["res"]!r} then {obs["again"]!r}'))
+    for nth, key in (('second', 'again'), ('third', 'third')):
+        if key in obs and not pv.pv_equal(obs['res'], obs[key]):
+            out.append(fail('parser-not-a-function-of-args',
+                            f'{parser}({args!r}) gave {obs["res"]!r}, then — after the earlier result '
+                            f'was changed in place — the {nth} call gave {obs[key]!r}'))
+            break
     if not obs['args_unchanged']:
         out.append(fail('parser-mutates-args', f'{parser} changed its argument list {args!r}'))
     out += check_parser_result(parser, args, obs['res'])
+    for key in ('again', 'third'):
+        if key in obs and not out:
+            out += check_parser_result(parser, args, obs[key], 'later-call-')
     return out
 
 
@@ -243,6 +252,13 @@ def monitor_api(case, obs):
             fp = 'api-context'
         out.append(fail(fp, f'first step saw {got!r}, expected {exp[1]!r} '
                             f'(parser={case["parser"]}, parse_args={case["parse_args"]}, '
+                            f'args_in={case["args_in"]!r}, dict_in={case["dict_in"]!r})'))
+    if 'res2' in obs and not out:
+        r2 = obs['res2']
+        if r2[0] != 'ok' or not same_mapping(r2[1]['d'], exp[1]):
+            out.append(fail('api-second-run-differs',
+                            f'a second run with equal arguments (after the first run changed its context '
+                            f'values in place) saw {r2!r}, expected {exp[1]!r} (parser={case["parser"]}, '
                             f'args_in={case["args_in"]!r}, dict_in={case["dict_in"]!r})'))
     if obs.get('parse_input_seen') is not run_parser:
         out.append(fail('api-parse-input', f'Pipeline.parse_input = {obs.get("parse_input_seen")!r}, '
